@@ -4,7 +4,8 @@ From Coq Require Import List ZArith Bool Arith Qcanon.
 From TK Require Import Mat_Sums Mat_Core Mat_Qc.
 From TK Require Import Dijkstra_Model Dijkstra_Spec Dijkstra_IsoModel Dijkstra_IsoExec Dijkstra_Sched_Model
      Dijkstra_Proof_Base Dijkstra_Proof_Spec Dijkstra_Proof Dijkstra_Proof_Iso Dijkstra_Proof_IsoExec
-     Dijkstra_Proof_Sched Dijkstra_IsoEmbed Dijkstra_IsoSelect Dijkstra_FibC_Model Dijkstra_Proof_FibC.
+     Dijkstra_Proof_Sched Dijkstra_IsoEmbed Dijkstra_IsoSelect Dijkstra_IsoOptimal Dijkstra_FibC_Model
+     Dijkstra_Proof_FibC.
 From Coq Require Import Permutation.
 Import ListNotations.
 Local Open Scope Z_scope.
@@ -254,6 +255,25 @@ Theorem isomap_embedding_top_d_partial : forall (n d : nat) (G Vf : mat Qc) (Lf 
 Proof. exact isomap_embedding_top_d. Qed.
 Print Assumptions isomap_embedding_top_d_partial.
 
+(* why the d LARGEST: Ky Fan's maximum principle, proved here over Qc (Bessel, Parseval, a weighted-sum
+   inequality).  Under the full-decomposition contract (now also V V^T = I), for ANY n x d matrix W with orthonormal
+   columns, sum_j w_j^T (-1/2 J S J) w_j is at most its value at the columns embed() gets back, which is the sum of
+   the d largest eigenvalues: the returned subspace retains the most of the doubly-centred inner products —
+   the variational characterisation of classical MDS.  (quad n B w = w^T B w.) *)
+Theorem isomap_subspace_optimal : forall (n d : nat) (G Vf : mat Qc) (Lf : vec Qc) (W : mat Qc),
+    n <> 0%nat -> (d <= n)%nat ->
+    (forall i j, (i < n)%nat -> (j < n)%nat ->
+        sumn n (fun t => seen_by_dense (iso_fixed n G) i t * Vf t j) = Lf j * Vf i j)%F ->
+    (forall a b, (a < n)%nat -> (b < n)%nat -> sumn n (fun t => Vf t a * Vf t b) = delta a b)%F ->
+    (forall a b, (a < n)%nat -> (b < n)%nat -> sumn n (fun m => Vf a m * Vf b m) = delta a b)%F ->
+    (forall a b, (a <= b)%nat -> (b < n)%nat -> qle (Lf a) (Lf b)) ->
+    (forall a b, (a < d)%nat -> (b < d)%nat -> sumn n (fun t => W t a * W t b) = delta a b)%F ->
+    qle (sumn d (fun j => quad n (mds_ref n G) (mcol W j)))
+        (sumn d (fun j => quad n (mds_ref n G) (mcol (sel_cols n d Vf) j))) /\
+    sumn d (fun j => quad n (mds_ref n G) (mcol (sel_cols n d Vf) j)) = sumn d (fun j => sel_vals n d Lf j).
+Proof. exact Dijkstra_IsoOptimal.isomap_subspace_optimal. Qed.
+Print Assumptions isomap_subspace_optimal.
+
 (* ---- non-vacuity: the hypotheses are satisfiable together ---- *)
 Example hypotheses_satisfiable :
     wf_graph f4_nbrs 3 1 /\ nonneg_w f4_nbrs f4_w /\ metric_w f4_w 3 /\
@@ -302,3 +322,18 @@ Example select_hypotheses_satisfiable :
     (forall j, (j < d)%nat -> (sel_vals n d emb_Lf j < 0)%Qc -> s j = 0)%F /\
     scale_cols (sel_cols n d emb_Vf) s 1%nat 0%nat = qz (-1).
 Proof. exact isomap_select_contract_satisfiable. Qed.
+
+(* the contract of isomap_subspace_optimal (rows of the eigenvector matrix orthonormal too) and a competitor
+   frame that retains strictly less (0 < 4) *)
+Example optimal_hypotheses_satisfiable :
+    let n := 4%nat in let d := 1%nat in let W : mat Qc := fun _ _ => qfrac 1 2 in
+    n <> 0%nat /\ (d <= n)%nat /\
+    (forall i j, (i < n)%nat -> (j < n)%nat ->
+        sumn n (fun t => seen_by_dense (iso_fixed n emb_G) i t * emb_Vf t j) = emb_Lf j * emb_Vf i j)%F /\
+    (forall a b, (a < n)%nat -> (b < n)%nat -> sumn n (fun t => emb_Vf t a * emb_Vf t b) = delta a b)%F /\
+    (forall a b, (a < n)%nat -> (b < n)%nat -> sumn n (fun m => emb_Vf a m * emb_Vf b m) = delta a b)%F /\
+    (forall a b, (a <= b)%nat -> (b < n)%nat -> qle (emb_Lf a) (emb_Lf b)) /\
+    (forall a b, (a < d)%nat -> (b < d)%nat -> sumn n (fun t => W t a * W t b) = delta a b)%F /\
+    sumn d (fun j => quad n (mds_ref n emb_G) (mcol W j)) = qz 0 /\
+    sumn d (fun j => sel_vals n d emb_Lf j) = qz 4.
+Proof. exact isomap_optimal_contract_satisfiable. Qed.
